@@ -91,6 +91,7 @@ def prod(
 
     else:
         for idx in axis:
+            idx = idx + a.ndim if idx < 0 else idx
             a = _prod(a, axis=idx)
             a = a[(slice(None),) * idx + (numpy.newaxis,)]
         out = a
